@@ -187,7 +187,11 @@ class ChildOperationExecutor(OperationExecutor[T]):
             # instead of the full BatchResult. During replay, the child context is re-executed
             # to reconstruct the full result rather than deserializing from the checkpoint.
             replay_children: bool = False
-            if len(serialized_result) > CHECKPOINT_SIZE_LIMIT:
+            # the limit is in bytes: non-ASCII text takes more bytes than characters
+            if (
+                len(serialized_result.encode("utf-8", "surrogatepass"))
+                > CHECKPOINT_SIZE_LIMIT
+            ):
                 logger.debug(
                     "Large payload detected, using ReplayChildren mode: id: %s, name: %s, payload_size: %d, limit: %d",
                     self.operation_identifier.operation_id,
